@@ -57,3 +57,12 @@ package id
 //@   ensures [ok] result == nil && stored0(alloc) <= MaxUint64 - 1000 ==> owner0(alloc) && alloc.base == stored0(alloc) && alloc.end == alloc.base + 1000
 //@   ensures [fail-unchanged] result != nil ==> alloc.base == old(alloc.base) && alloc.end == old(alloc.end)
 //@   modifies alloc.base, alloc.end, ghost etcdhas, ghost etcdval, ghost etcdlease, ghost etcdn, ghost etcdhas0, ghost etcdval0, ghost etcdlease0
+
+// NewAllocator: a new instance starts with an EMPTY window (base == end == 0) and has touched nothing in etcd, so
+// its first Alloc must go through the leader-guarded window extension - it can never resume ids of a window that an
+// earlier instance stored and may already have handed out.
+//@ func NewAllocator
+//@   props C04
+//@   ensures [starts-with-an-empty-window] result != nil && typeisptr(result, allocatorImpl) && asptr(result, allocatorImpl).base == 0 && asptr(result, allocatorImpl).end == 0
+//@   ensures [touches-nothing-in-etcd] etcdn[0] == old(etcdn[0])
+//@   modifies nothing
